@@ -54,6 +54,11 @@ CLAIMED = {
    note="PySCF primitives replaced by numpy reference implementations; generator and eval_xc_cider by contract stubs that keep the per-spin cache statefulness; real max_memory->blksize arithmetic and SDMX buffers outside.",
    technique="symbolic execution of the orchestration code + z3 equality of before/after and batched/separate terms",
    design="4/C09"),
+ "C11": dict(
+   text="The wrappers RBFEvaluator / AntisymRBFEvaluator / SpinRBFEvaluator are executed unchanged in the symbolic context; their FFI call runs clang's LLVM IR of /repo's current model_utils.c in a symbolic interpreter with bounds-checked buffers. z3 decides that value and gradient equal the Python kernel sum f(x) = sum_a k(x, x_a) alpha_a (computed by the real symbolic kernels, incl. constant factor, subset index expansion for slices with open stop/step, the antisymmetric kernel and the POL-mode kaa*kbb + kab*kba form), that results accumulate into pre-filled buffers, that default buffers stay in bounds, and that the linear mapping equals the linear kernel sum; evaluate_se_kernel_spin_v2 is checked directly on symbolic buffers.",
+   note="n <= 2, nctrl = 2, nfeat <= 3 (loops fully unrolled at these sizes); doubles as exact reals; spline-mapped evaluators' accuracy (numba interpolation) not applicable; OpenMP ignored here.",
+   technique="symbolic execution of clang LLVM IR (own interpreter) through the repository's ctypes wrappers + automatic differentiation + z3; replay against the freshly compiled library",
+   design="4/C11"),
 }
 
 NOT_YET = {}
